@@ -9,8 +9,8 @@ import pandas as pd
 from fv import design
 
 RICH_NUM = ["x", "z", "binary(f, 'a')", "B(g)", "center(x)", "scale(z)", "bs(x, df=4)", "poly(z, 2)", "np.log(z)", "I(x ** 2)", "bs(z, df=3, degree=2)", "standardize(x)", "poly(x, 2, raw=True)", "scale(center(z))",
-            "bs(x, knots=KN)", "bs(z, knots=KZ, degree=2, intercept=True)"]
-RICH_CAT = ["f", "g", "h", "o", "C(k)", "C(f, Sum)", "T(h, 'B-y')", "S(g)", "C(k, levels=KL)"]
+            "bs(x, knots=KN)", "bs(z, knots=KZ, degree=2, intercept=True)", "poly(xc, 2)", "center(xc)", "poly(xc, 3)"]
+RICH_CAT = ["f", "g", "h", "o", "C(k)", "C(f, Sum)", "T(h, 'B-y')", "S(g)", "C(k, levels=KL)", "I(f)"]
 
 
 def gen_text_formula(rng, groups=True, rich=True, max_terms=4):
